@@ -69,16 +69,16 @@ func init() {
 	}
 	// sequence unpacking (UNPACK_SEQUENCE / UNPACK_EX): the first argcnt items are stored downwards from the top so that the leftmost target is popped first; the starred list takes the rest; the after-star items are taken from the end of that list in the same downward order [ceval.c unpack_iterable]  []
 	pathSpec["vm|unpack_iterable"] = []string{
-		"[!(py.IsException(py.StopIteration, err)) && argcntafter == -1 && err == nil] Iter(v); LOOP(for i = 0; i < argcnt; i++){[!(py.IsException(py.StopIteration, err)) && err != nil] Next(py.Iter#0); IsException(py.StopIteration, err!) return | [err != nil && py.IsException(py.StopIteration, err)] Next(py.Iter#0); IsException(py.StopIteration, err!); ExceptionNewf(py.ValueError, \"need more than %d value(s) to unpack\", loop:i) return | [err == nil] Next(py.Iter#0) }; Next(py.Iter#0); IsException(py.StopIteration, err!) -> err!",
+		"[!(py.IsException(py.StopIteration, err)) && argcntafter == -1 && err == nil] Iter(v); LOOP(for k1 = 0; k1 < argcnt; k1++){[!(py.IsException(py.StopIteration, err)) && err != nil] Next(py.Iter#0); IsException(py.StopIteration, err!) return | [err != nil && py.IsException(py.StopIteration, err)] Next(py.Iter#0); IsException(py.StopIteration, err!); ExceptionNewf(py.ValueError, \"need more than %d value(s) to unpack\", loop:k1) return | [err == nil] Next(py.Iter#0) }; Next(py.Iter#0); IsException(py.StopIteration, err!) -> err!",
 		"[!(py.IsException(py.StopIteration, err)) && err == nil] Iter(v); Next(py.Iter#0); IsException(py.StopIteration, err!) -> err!",
-		"[argcntafter != -1 && argcntafter - len(l.Items) <= 0 && err == nil] Iter(v); LOOP(for i = 0; i < argcnt; i++){[!(py.IsException(py.StopIteration, err)) && err != nil] Next(py.Iter#0); IsException(py.StopIteration, err!) return | [err != nil && py.IsException(py.StopIteration, err)] Next(py.Iter#0); IsException(py.StopIteration, err!); ExceptionNewf(py.ValueError, \"need more than %d value(s) to unpack\", loop:i) return | [err == nil] Next(py.Iter#0) }; SequenceList(py.Iter#0); py.SequenceList#0.Len(); LOOP(for j := argcntafter; j > 0; j--){[err != nil] py.SequenceList#0.M__getitem__(len(l.Items) - loop:j) return | [err == nil] py.SequenceList#0.M__getitem__(len(l.Items) - loop:j) }; py.SequenceList#0.Resize(-argcntafter + len(l.Items)) -> nil",
-		"[argcntafter != -1 && argcntafter - len(l.Items) <= 0 && err == nil] Iter(v); LOOP(for i = 0; i < argcnt; i++){[!(py.IsException(py.StopIteration, err)) && err != nil] Next(py.Iter#0); IsException(py.StopIteration, err!) return | [err != nil && py.IsException(py.StopIteration, err)] Next(py.Iter#0); IsException(py.StopIteration, err!); ExceptionNewf(py.ValueError, \"need more than %d value(s) to unpack\", loop:i) return | [err == nil] Next(py.Iter#0) }; SequenceList(py.Iter#0); py.SequenceList#0.Len(); py.SequenceList#0.M__getitem__(len(l.Items) - loop:j) -> err!",
-		"[argcntafter != -1 && argcntafter - len(l.Items) >= 1 && err == nil] Iter(v); LOOP(for i = 0; i < argcnt; i++){[!(py.IsException(py.StopIteration, err)) && err != nil] Next(py.Iter#0); IsException(py.StopIteration, err!) return | [err != nil && py.IsException(py.StopIteration, err)] Next(py.Iter#0); IsException(py.StopIteration, err!); ExceptionNewf(py.ValueError, \"need more than %d value(s) to unpack\", loop:i) return | [err == nil] Next(py.Iter#0) }; SequenceList(py.Iter#0); py.SequenceList#0.Len(); ExceptionNewf(py.ValueError, \"need more than %d values to unpack\", argcnt + len(l.Items)) -> err!",
-		"[argcntafter != -1 && err == nil] Iter(v); LOOP(for i = 0; i < argcnt; i++){[!(py.IsException(py.StopIteration, err)) && err != nil] Next(py.Iter#0); IsException(py.StopIteration, err!) return | [err != nil && py.IsException(py.StopIteration, err)] Next(py.Iter#0); IsException(py.StopIteration, err!); ExceptionNewf(py.ValueError, \"need more than %d value(s) to unpack\", loop:i) return | [err == nil] Next(py.Iter#0) }; SequenceList(py.Iter#0) -> err!",
-		"[argcntafter == -1 && err == nil && py.IsException(py.StopIteration, err)] Iter(v); LOOP(for i = 0; i < argcnt; i++){[!(py.IsException(py.StopIteration, err)) && err != nil] Next(py.Iter#0); IsException(py.StopIteration, err!) return | [err != nil && py.IsException(py.StopIteration, err)] Next(py.Iter#0); IsException(py.StopIteration, err!); ExceptionNewf(py.ValueError, \"need more than %d value(s) to unpack\", loop:i) return | [err == nil] Next(py.Iter#0) }; Next(py.Iter#0); IsException(py.StopIteration, err!) -> nil",
-		"[argcntafter == -1 && err == nil] Iter(v); LOOP(for i = 0; i < argcnt; i++){[!(py.IsException(py.StopIteration, err)) && err != nil] Next(py.Iter#0); IsException(py.StopIteration, err!) return | [err != nil && py.IsException(py.StopIteration, err)] Next(py.Iter#0); IsException(py.StopIteration, err!); ExceptionNewf(py.ValueError, \"need more than %d value(s) to unpack\", loop:i) return | [err == nil] Next(py.Iter#0) }; Next(py.Iter#0); ExceptionNewf(py.ValueError, \"too many values to unpack (expected %d)\", argcnt) -> err!",
+		"[argcntafter != -1 && argcntafter - len(l.Items) <= 0 && err == nil] Iter(v); LOOP(for k1 = 0; k1 < argcnt; k1++){[!(py.IsException(py.StopIteration, err)) && err != nil] Next(py.Iter#0); IsException(py.StopIteration, err!) return | [err != nil && py.IsException(py.StopIteration, err)] Next(py.Iter#0); IsException(py.StopIteration, err!); ExceptionNewf(py.ValueError, \"need more than %d value(s) to unpack\", loop:k1) return | [err == nil] Next(py.Iter#0) }; SequenceList(py.Iter#0); py.SequenceList#0.Len(); LOOP(for k1 = argcntafter; k1 > 0; k1--){[err != nil] py.SequenceList#0.M__getitem__(len(l.Items) - loop:k1) return | [err == nil] py.SequenceList#0.M__getitem__(len(l.Items) - loop:k1) }; py.SequenceList#0.Resize(-argcntafter + len(l.Items)) -> nil",
+		"[argcntafter != -1 && argcntafter - len(l.Items) <= 0 && err == nil] Iter(v); LOOP(for k1 = 0; k1 < argcnt; k1++){[!(py.IsException(py.StopIteration, err)) && err != nil] Next(py.Iter#0); IsException(py.StopIteration, err!) return | [err != nil && py.IsException(py.StopIteration, err)] Next(py.Iter#0); IsException(py.StopIteration, err!); ExceptionNewf(py.ValueError, \"need more than %d value(s) to unpack\", loop:k1) return | [err == nil] Next(py.Iter#0) }; SequenceList(py.Iter#0); py.SequenceList#0.Len(); py.SequenceList#0.M__getitem__(len(l.Items) - loop:k1) -> err!",
+		"[argcntafter != -1 && argcntafter - len(l.Items) >= 1 && err == nil] Iter(v); LOOP(for k1 = 0; k1 < argcnt; k1++){[!(py.IsException(py.StopIteration, err)) && err != nil] Next(py.Iter#0); IsException(py.StopIteration, err!) return | [err != nil && py.IsException(py.StopIteration, err)] Next(py.Iter#0); IsException(py.StopIteration, err!); ExceptionNewf(py.ValueError, \"need more than %d value(s) to unpack\", loop:k1) return | [err == nil] Next(py.Iter#0) }; SequenceList(py.Iter#0); py.SequenceList#0.Len(); ExceptionNewf(py.ValueError, \"need more than %d values to unpack\", argcnt + len(l.Items)) -> err!",
+		"[argcntafter != -1 && err == nil] Iter(v); LOOP(for k1 = 0; k1 < argcnt; k1++){[!(py.IsException(py.StopIteration, err)) && err != nil] Next(py.Iter#0); IsException(py.StopIteration, err!) return | [err != nil && py.IsException(py.StopIteration, err)] Next(py.Iter#0); IsException(py.StopIteration, err!); ExceptionNewf(py.ValueError, \"need more than %d value(s) to unpack\", loop:k1) return | [err == nil] Next(py.Iter#0) }; SequenceList(py.Iter#0) -> err!",
+		"[argcntafter == -1 && err == nil && py.IsException(py.StopIteration, err)] Iter(v); LOOP(for k1 = 0; k1 < argcnt; k1++){[!(py.IsException(py.StopIteration, err)) && err != nil] Next(py.Iter#0); IsException(py.StopIteration, err!) return | [err != nil && py.IsException(py.StopIteration, err)] Next(py.Iter#0); IsException(py.StopIteration, err!); ExceptionNewf(py.ValueError, \"need more than %d value(s) to unpack\", loop:k1) return | [err == nil] Next(py.Iter#0) }; Next(py.Iter#0); IsException(py.StopIteration, err!) -> nil",
+		"[argcntafter == -1 && err == nil] Iter(v); LOOP(for k1 = 0; k1 < argcnt; k1++){[!(py.IsException(py.StopIteration, err)) && err != nil] Next(py.Iter#0); IsException(py.StopIteration, err!) return | [err != nil && py.IsException(py.StopIteration, err)] Next(py.Iter#0); IsException(py.StopIteration, err!); ExceptionNewf(py.ValueError, \"need more than %d value(s) to unpack\", loop:k1) return | [err == nil] Next(py.Iter#0) }; Next(py.Iter#0); ExceptionNewf(py.ValueError, \"too many values to unpack (expected %d)\", argcnt) -> err!",
 		"[err != nil] Iter(v) -> err!",
-		"[err == nil && py.IsException(py.StopIteration, err)] Iter(v); Next(py.Iter#0); IsException(py.StopIteration, err!); ExceptionNewf(py.ValueError, \"need more than %d value(s) to unpack\", loop:i) -> err!",
+		"[err == nil && py.IsException(py.StopIteration, err)] Iter(v); Next(py.Iter#0); IsException(py.StopIteration, err!); ExceptionNewf(py.ValueError, \"need more than %d value(s) to unpack\", loop:k1) -> err!",
 	}
 	// with statement entry: __exit__ is looked up and pushed, __enter__ is looked up and called, and only after it returned without error is the finally block pushed and the result pushed — an exception from __enter__ must not run __exit__ [ceval.c SETUP_WITH]  []
 	pathSpec["vm|do_SETUP_WITH"] = []string{
@@ -217,8 +217,8 @@ func init() {
 		"[err != nil && key.(*Slice)] key.GetIndices(len(a.Items)) -> nil, err!",
 		"[err == nil && key.(*Slice) && ret#0:slice.GetIndices(len(a.Items)) - ret#1:slice.GetIndices(len(a.Items)) <= 0 && ret#2:slice.GetIndices(len(a.Items)) == 1] key.GetIndices(len(a.Items)); a.Items = append(a.Items[:start], a.Items[stop:]) -> None, nil",
 		"[err == nil && key.(*Slice) && ret#0:slice.GetIndices(len(a.Items)) - ret#1:slice.GetIndices(len(a.Items)) >= 1 && ret#2:slice.GetIndices(len(a.Items)) == 1] key.GetIndices(len(a.Items)); a.Items = append(a.Items[:start], a.Items[stop:]) -> None, nil",
-		"[err == nil && key.(*Slice) && ret#2:slice.GetIndices(len(a.Items)) != 1 && ret#2:slice.GetIndices(len(a.Items)) <= -1] key.GetIndices(len(a.Items)); LOOP(for j := 0; j < slicelength; j++){[] a.DelItem(start + j * step - j) } -> None, nil",
-		"[err == nil && key.(*Slice) && ret#2:slice.GetIndices(len(a.Items)) != 1 && ret#2:slice.GetIndices(len(a.Items)) >= 0] key.GetIndices(len(a.Items)); LOOP(for j := 0; j < slicelength; j++){[] a.DelItem(start + j * step - j) } -> None, nil",
+		"[err == nil && key.(*Slice) && ret#2:slice.GetIndices(len(a.Items)) != 1 && ret#2:slice.GetIndices(len(a.Items)) <= -1] key.GetIndices(len(a.Items)); LOOP(for k1 = 0; k1 < slicelength; k1++){[] a.DelItem(start + k1 * step - k1) } -> None, nil",
+		"[err == nil && key.(*Slice) && ret#2:slice.GetIndices(len(a.Items)) != 1 && ret#2:slice.GetIndices(len(a.Items)) >= 0] key.GetIndices(len(a.Items)); LOOP(for k1 = 0; k1 < slicelength; k1++){[] a.DelItem(start + k1 * step - k1) } -> None, nil",
 	}
 	// in-place set operators adopt the result of the binary operator unconditionally and evaluate to the receiver  []
 	pathSpec["py|Set.inPlace"] = []string{
